@@ -340,7 +340,8 @@ KNOWN = {'KF-C15-b': _kf_unhashable}
 def _valid_value(d, name, draw):
     t = d['type']
     if name == 'time':
-        return draw(st.sampled_from([0, 1, 5, 2.5, -1, 2 ** 40]))
+        # (a Fraction is a real number too - round 13: a copy(time=...) fast path testing for int and float only)
+        return draw(st.sampled_from([0, 1, 5, 2.5, -1, 2 ** 40, T('fraction', [1, 3]), T('fraction', [7, 2])]))
     if t == 'unknown_meta':
         return {'type_byte': draw(st.sampled_from(S.UNKNOWN_TYPE_BYTES)),
                 'data': T('tuple', draw(st.lists(st.integers(0, 255), max_size=4)))}[name]
